@@ -1,0 +1,12 @@
+//! Verification hooks (cargo feature `verif`, off by default).
+//!
+//! Add-only re-exports of crate-private items so that an external harness can drive the real
+//! code in-process. Nothing here changes behaviour; with the feature off this module does not exist.
+
+pub use crate::ansi::{ANSIParser, AnsiString};
+pub use crate::event::{Event, EventHandler, UpdateScreen};
+pub use crate::item::{ItemPool, MatchedItem, RankBuilder, RankCriteria};
+pub use crate::orderedvec::OrderedVec;
+pub use crate::query::Query;
+pub use crate::selection::Selection;
+pub use crate::spinlock::SpinLock;
